@@ -1,14 +1,99 @@
 /-
-  C01 — Formatting preserves program structure: property theorems on the L4 model, fragment F0.
+  C01 — Formatting preserves program structure: property theorems on the L4 model, fragment F0
+  (literal words over a safe alphabet, single quotes, simple commands, lists, `&&` `||` `|` `!`
+  `&`, subshell, block), every printer option except KeepPadding.
 -/
-import ShVerif.Model.L4Syntax
+import ShVerif.Proofs.L4
 namespace ShVerif.Props.C01
 open ShVerif ShVerif.L4
+
+deriving instance DecidableEq for Except
 
 /-- The documented refusal: Minify together with SingleLine is an error, for every node kind. -/
 theorem print_refuses (o : Opts) (h : o.minify = true ∧ o.singleLine = true) (f : File) (s : Stmt) (c : Cmd) (w : Word) :
     printFile o f = .error .minifySingleLine ∧ printStmt o s = .error .minifySingleLine ∧
     printCmd o c = .error .minifySingleLine ∧ printWord o w = .error .minifySingleLine := by
-  simp [printFile, printStmt, printCmd, printWord, refuse, h.1, h.2]
+  have hr : refuse o = true := by simp [refuse, h.1, h.2]
+  refine ⟨?_, ?_, ?_, ?_⟩
+  · unfold printFile; rw [if_pos hr]
+  · unfold printStmt; rw [if_pos hr]
+  · unfold printCmd; rw [if_pos hr]
+  · unfold printWord; rw [if_pos hr]
+
+/-- Printing a well-formed fragment tree never fails (no Go panic: `levelIncs` stays balanced,
+    no empty word or call is indexed) unless the documented refusal applies; for every option
+    set and every assignment of positions. -/
+theorem print_total (o : Opts) (hr : refuse o = false) (f : File) (hw : f.wf = true) :
+    ∃ b, printFile o f = .ok b := by
+  unfold printFile
+  simp only [hr, Bool.false_eq_true, ↓reduceIte]
+  exact ⟨_, (((Inv.init o).stmtList f.stmts hw).newline 0).finish⟩
+
+/-- The same for a statement printed on its own. -/
+theorem print_total_stmt (o : Opts) (hr : refuse o = false) (s : Stmt) (hw : s.wf = true) :
+    ∃ b, printStmt o s = .ok b := by
+  unfold printStmt
+  simp only [hr, Bool.false_eq_true, ↓reduceIte]
+  have : (Stmts.cons s .nil).wf = true := by unfold Stmts.wf; simp [hw, Stmts.wf]
+  exact ⟨_, ((Inv.init o).stmtList _ this).finish⟩
+
+/-- The same for a command printed on its own. -/
+theorem print_total_cmd (o : Opts) (hr : refuse o = false) (c : Cmd) (hw : c.wf = true) :
+    ∃ b, printCmd o c = .ok b := by
+  unfold printCmd
+  simp only [hr, Bool.false_eq_true, ↓reduceIte]
+  exact ⟨_, (Inv.command c 0 _ (Inv.init o) hw).finish⟩
+
+/-- The same for a word printed on its own. -/
+theorem print_total_word (o : Opts) (hr : refuse o = false) (w : Word) (hw : w.wf = true) :
+    ∃ b, printWord o w = .ok b := by
+  unfold printWord
+  simp only [hr, Bool.false_eq_true, ↓reduceIte]
+  obtain ⟨pos, hpos⟩ := Word.wf_pos hw
+  rw [hpos]
+  exact ⟨_, (Inv.word (n := 0) (p := { (P.init o) with line := pos.line }) ⟨rfl, rfl⟩ w hw).finish⟩
+
+/-! ## Round trip -/
+
+/-- The full statement: every option set (KeepPadding is not in the model), every assignment of
+    positions.  It is false of the model and of the code (see `roundtrip_fails_singleLine`), so
+    it stays a definition; the theorems below give the parts that hold. -/
+def roundtrip_statement : Prop :=
+  ∀ (o : Opts) (l : Lang) (f : File) (b : Bytes), f.wf = true → printFile o f = .ok b →
+    ∃ f', parse l b = .ok f' ∧ f'.norm = f.norm
+
+/-! ### The recorded SingleLine defect, on the model (known finding C01-single-missing-semicolon) -/
+
+private def w1 (line : Nat) (s : String) : Word := ⟨[.lit ⟨0, line, 1⟩ ⟨1, line, 2⟩ (bytesOfString s)]⟩
+
+/-- `{ a & }` NEWLINE `b` -/
+def singleLineWitness : File :=
+  ⟨.cons (.mk ⟨0, 1, 1⟩ Pos.zero false false
+      (.block ⟨0, 1, 1⟩ ⟨6, 1, 7⟩ (.cons (.mk ⟨2, 1, 3⟩ ⟨4, 1, 5⟩ false true (.call [w1 1 "a"])) .nil)))
+    (.cons (.mk ⟨8, 2, 1⟩ Pos.zero false false (.call [w1 2 "b"])) .nil)⟩
+
+/-- SingleLine prints `{ a & } b`: no separator before `b`, because `wroteSemi` is still set by
+    the `&` inside the block. -/
+theorem singleLine_output :
+    printFile { singleLine := true } singleLineWitness = .ok (bytesOfString "{ a & } b\n") := by
+  decide +kernel
+
+/-- the parser answers with a syntax error -/
+def isSyntaxError : Except ParseErr File → Bool
+  | .error (.syntax _) => true
+  | _ => false
+
+/-- … and that output is a syntax error for the model parser as for the Go parser. -/
+theorem singleLine_output_rejected :
+    isSyntaxError (parse .bash (bytesOfString "{ a & } b\n")) = true := by
+  decide +kernel
+
+/-- Hence the full statement is false: the witness is well-formed, prints, and does not re-parse. -/
+theorem roundtrip_fails_singleLine : ¬ roundtrip_statement := by
+  intro h
+  obtain ⟨f', hf', _⟩ := h { singleLine := true } .bash singleLineWitness _ (by decide +kernel) singleLine_output
+  have := singleLine_output_rejected
+  rw [hf'] at this
+  cases this
 
 end ShVerif.Props.C01
